@@ -30,6 +30,14 @@ def same_keys(a, b):
     return True
 
 
+def mapping_ids(v, acc):
+    if isinstance(v, (dict, gm.ROMapping)):
+        acc.add(id(v))
+        for x in v.values():
+            mapping_ids(x, acc)
+    return acc
+
+
 def all_dicts(v):
     if isinstance(v, dict):
         return all(all_dicts(x) for x in v.values())
@@ -45,7 +53,7 @@ def run(ctx):
                   stdout_path=os.path.join(ctx.work, 'tree.out'), timeout=600)
     ctx.tlc(res, 'Masking: MaskTree on every tree of depth <= 2 (TreeSameKeys, TreeMasksUnderKey, TreeResultIsDict)')
     recs = res.records
-    if len(recs) < 50000:
+    if len(recs) < 50000 or not any(r['tree']['ents'] == [] for r in recs[:100000]):
         raise MachineryError('tree export too small: %d' % len(recs))
     rnd = random.Random(ctx.seed)
     if quick:
@@ -73,8 +81,8 @@ def run(ctx):
             problems.append('keys-differ')
         if snapshot(arg, {}) != before or arg != backup:
             problems.append('argument-modified')
-        if isinstance(got, dict) and isinstance(arg, dict) and got is arg:
-            problems.append('same-object')
+        if isinstance(got, dict) and (mapping_ids(got, set()) & mapping_ids(arg, set())):
+            problems.append('shares-a-mapping-object-with-the-argument')
         if problems:
             ctx.violation({'kind': problems[0], 'kinds': problems},
                           {'tree': rec['tree'], 'argument': repr(backup)[:800], 'mask': mask,
@@ -117,6 +125,8 @@ def run(ctx):
     # expectation is computed by applying the spec's per-entry rule, which TLC has checked on
     # all depth-2 trees; deeper trees are compositions of the same rule
     def rand_tree(d):
+        if d < 4 and rnd.random() < 0.08:
+            return {'t': 'map', 'kind': rnd.choice(['dict', 'mapping']), 'ents': []}
         if d == 0 or rnd.random() < 0.3:
             return {'t': 'leaf', 'v': rnd.choice(['v_secret_str', 'v_plain_str', 'v_bytes', 'v_int', 'v_none', 'v_list', 'v_float'])}
         ents = []
@@ -151,8 +161,9 @@ def run(ctx):
         before = snapshot(arg, {})
         got = strutils.mask_dict_password(arg)
         d += 1
-        if got != want or snapshot(arg, {}) != before or arg != bk:
-            ctx.violation({'kind': 'deep-tree', 'modified': arg != bk},
+        shares = isinstance(got, dict) and bool(mapping_ids(got, set()) & mapping_ids(arg, set()))
+        if got != want or snapshot(arg, {}) != before or arg != bk or shares or not all_dicts(got):
+            ctx.violation({'kind': 'deep-tree', 'modified': arg != bk, 'shares': shares},
                           {'argument': repr(bk)[:1000], 'observed': repr(got)[:1000], 'expected': repr(want)[:1000]},
                           'mask_dict_password on a depth-4 tree: %s -> %s, specification %s' % (
                               repr(bk)[:200], repr(got)[:200], repr(want)[:200]))
